@@ -765,6 +765,8 @@ class ExprMixin(ExecBase):
         res = [(st, None)]
         for part in e.values:
             if isinstance(part, ast.FormattedValue):
+                if not any(isinstance(x, (ast.Call, ast.Await, ast.NamedExpr, ast.Yield)) for x in ast.walk(part.value)):
+                    continue          # a call-free interpolation has no effect; the text itself is opaque
                 nxt = []
                 for s, _ in res:
                     for s2, _v in self.ev(part.value, s):
